@@ -306,12 +306,211 @@ def mutate_progbook(pg, m):
     return sc.Spreadsheet(out)
 
 
+# ------------------------------------------------------------------------------------------------ library files as bases
+_LISTED = {"max", "min", "exp", "floor", "sqrt", "ln", "cos", "sin", "sdiv"}
+
+
+def _lower(x):
+    return x.strip().lower() if isinstance(x, str) else x
+
+
+def read_sheets(path):
+    """{sheet name: rows} of an xlsx file (values only)."""
+    import openpyxl
+
+    wb = openpyxl.load_workbook(path, data_only=True)
+    S = {}
+    for ws in wb.worksheets:
+        rows = [[c.value for c in row] for row in ws.iter_rows()]
+        while rows and all(v is None for v in rows[-1]):
+            rows.pop()
+        S[ws.title] = rows
+    return S
+
+
+def skey(S, name):
+    for k in S:
+        if k.strip().lower() == name.lower():
+            return k
+    raise KeyError(name)
+
+
+def hcol(rows, header):
+    for j, v in enumerate(rows[0]):
+        if _lower(v) == header.lower():
+            return j
+    raise KeyError(header)
+
+
+def fn_tokens(fn):
+    """(dependencies, called functions) of a parameter function string, by tokenising (the harness's own reading, not the library's parser)."""
+    import re
+
+    deps, calls = set(), set()
+    for m_ in re.finditer(r"[A-Za-z_][A-Za-z0-9_]*(?::[A-Za-z0-9_]*)*|:[A-Za-z_][A-Za-z0-9_]*", fn):
+        tok = m_.group(0)
+        rest = fn[m_.end():].lstrip()
+        if rest.startswith("(") and ":" not in tok:
+            calls.add(tok)
+        else:
+            for part in tok.split(":"):
+                if part and part != "flow":
+                    deps.add(part)
+    return deps, calls
+
+
+def lib_base(at, name):
+    """(abstract TLA+ record text, concrete sheets, anchors) of a library framework, or None if it uses features outside the abstraction."""
+    import atomica
+
+    path = "%s/%s_framework.xlsx" % (atomica.LIBRARY_PATH, name)
+    F = at.ProjectFramework(path)
+    S = read_sheets(path)
+    q = lambda x: '"%s"' % x
+    st = lambda xs: "{%s}" % ", ".join(sorted(xs))
+    kinds = {}
+    for c in F.comps.index:
+        r = F.comps.loc[c]
+        kinds[c] = "source" if r["is source"] == "y" else "sink" if r["is sink"] == "y" else "junction" if r["is junction"] == "y" else "normal"
+    pars = []
+    fpars = []
+    for pn in F.pars.index:
+        fn = F.pars.at[pn, "function"]
+        fmt = F.pars.at[pn, "format"]
+        deps, calls = (fn_tokens(fn) if isinstance(fn, str) else (set(), set()))
+        if calls - _LISTED:
+            return None  # population aggregations etc.: outside this abstraction
+        if isinstance(fn, str):
+            fpars.append(pn)
+        pars.append('Par(%s, %s, %s, %s)' % (q(pn), q(fmt.strip().lower() if isinstance(fmt, str) else ""), st(q(d) for d in deps), st(q(c) for c in calls)))
+    trans = sorted({(a, b, pn) for pn, pairs in F.transitions.items() for (a, b) in pairs})
+    characs = []
+    expand = {}
+
+    def comps_of(n):
+        if n in kinds:
+            return {n}
+        if n not in expand:
+            expand[n] = set().union(*[comps_of(x.strip()) for x in str(F.characs.at[n, "components"]).split(",")])
+        return expand[n]
+
+    for ch in F.characs.index:
+        parts = [x.strip() for x in str(F.characs.at[ch, "components"]).split(",")]
+        den = F.characs.at[ch, "denominator"]
+        characs.append('[name |-> %s, parts |-> %s, denom |-> %s]' % (q(ch), st(q(x) for x in parts), q(den) if isinstance(den, str) else '""'))
+    casc = []
+    if len(F.cascades):
+        df = list(F.cascades.values())[0]
+        for cell in df.iloc[:, 1]:
+            casc.append(st(q(c) for c in sorted(set().union(*[comps_of(x.strip()) for x in str(cell).split(",")]))))
+    normal = [c for c, k in kinds.items() if k == "normal"]
+    pairs = {(a, b) for (a, b, _) in trans}
+    free = [(a, b) for a in normal for b in normal if a != b and (a, b) not in pairs and F.comps.at[a, "population type"] == F.comps.at[b, "population type"]]
+    tpars = [pn for (a, b, pn) in trans if kinds[a] == "normal" and pn not in fpars]
+    if not free or not tpars or not fpars:
+        return None
+    anch = dict(tpar=tpars[0], c1=free[0][0], c2=free[0][1], fpar=fpars[0], p2=[p_ for p_ in F.pars.index if p_ not in (tpars[0], fpars[0])][0])
+    sheets = {k.strip().lower() for k in S}
+    cols = set()
+    for sh, col_ in (("compartments", "code name"), ("compartments", "display name"), ("parameters", "code name"), ("parameters", "display name"), ("parameters", "format")):
+        try:
+            hcol(S[skey(S, sh)], col_)
+            cols.add("%s.%s" % (sh, col_))
+        except KeyError:
+            pass
+    inter = list(F.interactions.index) if hasattr(F, "interactions") and F.interactions is not None else []
+    P = at.demo(name, do_run=False)
+    rec = ('[id |-> %s,\n comps |-> %s,\n pars |-> %s,\n trans |-> %s,\n characs |-> %s,\n cascade |-> <<%s>>,\n sheets |-> %s, columns |-> %s, dupcodes |-> 0, dupdisplay |-> 0, datadefects |-> {},\n'
+           ' datapops |-> %s, targetable |-> {}, extranames |-> %s,\n anch |-> [tpar |-> %s, c1 |-> %s, c2 |-> %s, fpar |-> %s, p2 |-> %s],\n'
+           ' pb |-> [progs |-> {}, dupprogs |-> 0, tpops |-> {}, tcomps |-> {}, epars |-> {}, epops |-> {}, eprogs |-> {}, iprogs |-> {}, untargeted |-> {}, defects |-> {}]]') % (
+        q("lib_" + name), st('C(%s, %s)' % (q(c), q(k)) for c, k in kinds.items()), st(pars), st('<<%s, %s, %s>>' % (q(a), q(b), q(pn)) for a, b, pn in trans), st(characs), ", ".join(casc),
+        st(q(x) for x in sheets), st(q(x) for x in cols), st(q(x) for x in P.data.pops.keys()), st(q(x) for x in inter), q(anch["tpar"]), q(anch["c1"]), q(anch["c2"]), q(anch["fpar"]), q(anch["p2"]))
+    return rec, S, anch
+
+
+def mutate_generic(S, m, anch):
+    """Apply generic mutation m (phrased over the anchors) to concrete sheets {name: rows}."""
+    S = copy.deepcopy(S)
+    if m == "g_none":
+        return S
+    if m == "g_delete_parameters_sheet":
+        del S[skey(S, "parameters")]
+        return S
+    P = S[skey(S, "parameters")]
+    code, disp, fnc = hcol(P, "code name"), hcol(P, "display name"), hcol(P, "function")
+    prow = lambda n: [r for r in P[1:] if r and r[code] == n][0]
+
+    def newpar(c, d, fn=None):
+        r = [None] * len(P[0])
+        r[code], r[disp], r[fnc] = c, d, fn
+        try:
+            r[hcol(P, "targetable")] = "n"
+        except KeyError:
+            pass
+        P.append(r)
+
+    if m in ("g_undefined_parameter_in_transition", "g_undefined_compartment_in_transition"):
+        T = S[skey(S, "transitions")]
+        ri = [i for i, r in enumerate(T) if r and r[0] == anch["c1"]][0]
+        hi = max(i for i in range(ri) if T[i] and anch["c1"] in T[i][1:])  # header row of the matrix that contains c1
+        if m == "g_undefined_parameter_in_transition":
+            T[ri][T[hi].index(anch["c2"], 1)] = "noparam"
+        else:
+            width = max(len(r) for r in T)
+            for r in T:
+                r.extend([None] * (width + 1 - len(r)))
+            T[hi][width] = "nowhere"
+            T[ri][width] = anch["tpar"]
+    elif m == "g_duplicate_code_name":
+        newpar(anch["c1"], "Duplicate of a compartment name")
+    elif m == "g_duplicate_display_name":
+        prow(anch["p2"])[disp] = prow(anch["tpar"])[disp]
+    elif m == "g_reserved_name":
+        newpar("t", "Time parameter")
+    elif m == "g_self_reference":
+        prow(anch["fpar"])[fnc] = "%s + 0*%s" % (prow(anch["fpar"])[fnc], anch["fpar"])
+    elif m == "g_unsupported_call":
+        prow(anch["fpar"])[fnc] = "foo(%s)" % prow(anch["fpar"])[fnc]
+    elif m == "g_undefined_dependency":
+        prow(anch["fpar"])[fnc] = "%s + ghost" % prow(anch["fpar"])[fnc]
+    elif m == "g_delete_format_column":
+        j = hcol(P, "format")
+        for r in P:
+            if len(r) > j:
+                del r[j]
+    elif m == "g_add_output_parameter":
+        newpar("extra", "Extra output", "max(%s, 1)" % anch["c1"])
+    else:
+        raise ValueError(m)
+    return S
+
+
+def try_lib_case(at, name, S, anch, m):
+    """A library framework with generic mutation m: rejected with the dedicated error, or accepted and runnable with the library databook."""
+    import atomica
+
+    try:
+        Fw = at.ProjectFramework(write_framework(mutate_generic(S, m, anch)))
+    except Exception as ex:
+        return ("rejected" if dedicated(ex) else "error"), False, "framework: %s: %s" % (type(ex).__name__, str(ex)[:200])
+    try:
+        P = at.Project(framework=Fw, databook="%s/%s_databook.xlsx" % (atomica.LIBRARY_PATH, name), do_run=False)
+        P.settings.update_time_vector(end=float(P.settings.sim_start) + 3)
+        P.run_sim(P.parsets[0], store_results=False)
+    except Exception as ex:
+        return "accepted", False, "library databook / run: %s: %s" % (type(ex).__name__, str(ex)[:200])
+    return "accepted", True, ""
+
+
 def try_case(at, S0, m):
     """Materialise (base, mutation), feed it to the library; returns (outcome, runnable, detail)."""
     import sciris as sc
 
     try:
-        Fw = at.ProjectFramework(write_framework(mutate_framework(S0, m)))
+        if m.startswith("g_"):
+            Fw = at.ProjectFramework(write_framework(mutate_generic(S0, m, dict(tpar="rec", c1="inf", c2="sus", fpar="foi", p2="mort"))))
+        else:
+            Fw = at.ProjectFramework(write_framework(mutate_framework(S0, m)))
     except Exception as ex:
         return ("rejected" if dedicated(ex) else "error"), False, "framework: %s: %s" % (type(ex).__name__, str(ex)[:200])
     # every accepted framework can produce a blank databook that reads back, and once filled the model builds and runs
@@ -372,12 +571,32 @@ def run(prop, tier):
     at = C.quiet_atomica()
     V = C.Verdict(prop)
     cfg = open(C.SPEC + "/Validate.cfg").read()
-    r, pairs = C.enumerate_cases(["Validate", "MCValidate"], "MCValidate", cfg, timeout=600)
+    # library frameworks as further bases: their abstract record is derived from the file, TLC checks that it satisfies the rules (BaseValid)
+    libs = {}
+    mc = open(C.SPEC + "/MCValidate.tla").read()
+    defs = ""
+    for name in (["tb_simple", "hiv", "sir"] if tier != "thorough" else ["tb_simple", "udt", "usdt", "hiv", "hypertension", "diabetes", "cervicalcancer", "sir"]):
+        try:
+            lb = lib_base(at, name)
+        except Exception as ex:
+            V.note_drift("library framework %s could not be abstracted: %s: %s" % (name, type(ex).__name__, str(ex)[:100]))
+            continue
+        if lb is None:
+            continue
+        libs["lib_" + name] = (name, lb[1], lb[2])
+        defs += "L_%s == %s\n" % (name, lb[0])
+    if libs:
+        mc = mc.replace("MCBases == <<B1>>", defs + "MCBases == <<B1, %s>>" % ", ".join("L_%s" % n for n, _, _ in libs.values()))
+    r, pairs = C.enumerate_cases(["Validate", "MCValidate"], "MCValidate", cfg, timeout=600, generated={"MCValidate.tla": mc})
     cov = dict(states=r.distinct, transitions=r.generated, traces_validated_against_impl=0, samples=[], exhaustive=True, pairs=len(pairs))
     S0 = base_sheets()
     records, index = [], {}
+    cov["library_bases"] = sorted(libs)
     for rid, p in enumerate(pairs):
-        outcome, runnable, detail = try_case(at, S0, p["mutation"])
+        if p["base"] in libs:
+            outcome, runnable, detail = try_lib_case(at, libs[p["base"]][0], libs[p["base"]][1], libs[p["base"]][2], p["mutation"])
+        else:
+            outcome, runnable, detail = try_case(at, S0, p["mutation"])
         records.append(dict(id=rid, verdict=p["verdict"], outcome=outcome, runnable=bool(runnable)))
         index[rid] = dict(base=p["base"], mutation=p["mutation"], verdict=p["verdict"], outcome=outcome, runnable=runnable, detail=detail)
     # valid library files must be accepted and runnable too (environment permitting)
@@ -385,9 +604,9 @@ def run(prop, tier):
     cov["states"] += states
     cov["transitions"] += states
     cov["traces_validated_against_impl"] = len(records)
-    cov["outcomes"] = {v["mutation"]: "%s%s" % (v["outcome"], "" if v["outcome"] != "accepted" else (" runnable" if v["runnable"] else " NOT runnable")) for v in index.values()}
+    cov["outcomes"] = {("" if v["base"] == "sirj" else v["base"] + ":") + v["mutation"]: "%s%s" % (v["outcome"], "" if v["outcome"] != "accepted" else (" runnable" if v["runnable"] else " NOT runnable")) for v in index.values()}
     for rid_, clause in bad:
         d = index[rid_]
-        V.violation("C18 %s mutation=%s %s" % (clause, d["mutation"], d["detail"].split(":")[1].strip() if d["detail"] and clause == "InternalError" else ""), dict(clause=clause, **d))
+        V.violation("C18 %s %smutation=%s %s" % (clause, "" if d["base"] == "sirj" else d["base"] + " ", d["mutation"], d["detail"].split(":")[1].strip() if d["detail"] and clause == "InternalError" else ""), dict(clause=clause, **d))
     cov["samples"] = [index[0], index[len(index) - 1]]
     return V, cov, time.time() - t0
